@@ -106,7 +106,10 @@ contract(
     requires=lambda a: a.position >= 0,
     raises={ValueError: lambda a: S.Or(S.len(a.texts_) == 0, pslen(a.texts_, S.len(a.texts_)) < a.position)},
     ensures=[Clause("split", {"C09"}, _find_post)],
-    loops={0: Inv(lambda a, v: z3.And(v.count == pslen(a.texts_, v.k_), z3.Or(v.k_ == 0, v.count < a.position)))},
+    loops={0: Inv(lambda a, v: z3.And(v.count == pslen(a.texts_, v.k_), z3.Or(v.k_ == 0, v.count < a.position)),
+                  # ground instances: PS(k+1) = PS(k) + len(T_k), and PS(k+1) <= PS(n)
+                  hints=lambda a, v: [(AX_PSLEN, (a.texts_.term.arr, zint(v.k_) + 1)),
+                                      (LEM_MONO, (a.texts_.term.arr, zint(v.k_) + 1, zint(S.len(a.texts_))))])},
     uses=[AX_PSLEN, LEM_MONO],
     gen=_gen_find, call_native=_call_find,
     note="the character offset is split into (text node, offset inside it): count + pos = position, "
